@@ -157,9 +157,9 @@ Proof.
   - induction H as [|[k x] m Hx Hm IH]; [reflexivity|]. cbn [snd] in Hx. rewrite text_eqb_refl, Hx, IH. reflexivity.
 Qed.
 
-Lemma json_eqb_eq : forall a b, json_eqb a b = true -> a = b.
+Lemma json_eqb_eq : forall a c, json_eqb a c = true -> a = c.
 Proof.
-  induction a using json_ind'; destruct b as [| b' | z' | s' | l' | m']; cbn [json_eqb]; intros E; try discriminate.
+  induction a using json_ind'; intros c; destruct c as [| b' | z' | s' | l' | m']; cbn [json_eqb]; intros E; try discriminate.
   - reflexivity.
   - apply Bool.eqb_prop in E. congruence.
   - apply Z.eqb_eq in E. congruence.
@@ -183,8 +183,11 @@ Lemma json_mem_In : forall x l, json_mem x l = true <-> In x l.
 Proof.
   intros x. induction l as [|y r IH]; cbn [json_mem In].
   - split; [discriminate|tauto].
-  - rewrite Bool.orb_true_iff, IH. destruct (json_eqb_spec x y); split; intros [H|H]; auto; try discriminate.
-    congruence.
+  - rewrite Bool.orb_true_iff, IH. destruct (json_eqb_spec x y) as [->|Hne]; split.
+    + intros _. left. reflexivity.
+    + intros _. left. reflexivity.
+    + intros [H|H]; [discriminate|right; exact H].
+    + intros [H|H]; [congruence|right; exact H].
 Qed.
 
 Lemma json_mem_false : forall x l, json_mem x l = false <-> ~ In x l.
